@@ -12,6 +12,9 @@ from __future__ import annotations
 
 from .. import AnalysisError
 from .. import terms as T
+import ast
+
+from ..model import walk_no_nested
 from ..mutants import M
 from .common import SELF, fold, loc_of, self_attr
 
@@ -227,10 +230,40 @@ def run(ctx):
     # ---------------- the data transform's own Jacobians (necessary for a normalised density)
     from ..report import reuse
     from . import c04
+    # ---- log_prob is a function of the point: no stochastic estimator is switched on for the flow's log-determinant.  Frozen API fact (zuko):
+    #      a continuous flow built with exact=False estimates the trace with random probes (Hutchinson), so two evaluations at one point differ and the
+    #      log-density returned with a draw is not log_prob at that draw.  Only the constant True (or leaving the library default, True) is accepted.
+    n_ex, bad_ex = 0, []
+    for f_ in repo.all_functions():
+        if not f_.ident.startswith("aspire.flows"):
+            continue
+        for n_ in walk_no_nested(f_.node):
+            v_ = None
+            if isinstance(n_, ast.keyword) and n_.arg == "exact":
+                v_ = n_.value
+            elif isinstance(n_, ast.Call) and isinstance(n_.func, ast.Attribute) and n_.func.attr in ("setdefault", "update", "get") and n_.args \
+                    and isinstance(n_.args[0], ast.Constant) and n_.args[0].value == "exact" and len(n_.args) > 1:
+                v_ = n_.args[1]
+            elif isinstance(n_, ast.Dict):
+                for k_, val_ in zip(n_.keys, n_.values):
+                    if isinstance(k_, ast.Constant) and k_.value == "exact":
+                        v_ = val_
+            elif isinstance(n_, ast.Assign) and any(isinstance(t_, ast.Subscript) and isinstance(t_.slice, ast.Constant) and t_.slice.value == "exact" for t_ in n_.targets):
+                v_ = n_.value
+            if v_ is None:
+                continue
+            n_ex += 1
+            if not (isinstance(v_, ast.Constant) and v_.value is True):
+                bad_ex.append((f_, n_, v_))
+    ctx.count("exact_option_sites", n_ex)
+    ctx.decide(not bad_ex, "C03.sign", "aspire.flows", loc_of(bad_ex[0][0], bad_ex[0][1]) if bad_ex else "src/aspire/flows",
+               "no flow is built with a stochastic log-determinant estimator (exact is never set to anything but True)",
+               (f"{bad_ex[0][0].ident} sets the flow option exact = {ast.unparse(bad_ex[0][2])[:40]}: whenever that is not True the continuous flow estimates its log-determinant with random "
+                "probes, log_prob is no longer a function of the point, and the log-density returned with a draw differs from log_prob evaluated at it") if bad_ex else "", disc="exact")
     from . import c13 as _c13
     reuse(ctx, _c13.run, ("C13.flow", "C13.nomut"), "C03rt", "flow round-trip rules shared with C13: a proposal that loses its data transform, its weights or a constructor option on "
           "save / load / re-save evaluates log_prob on a different density than the one its stored draws and log_q values came from")
-    reuse(ctx, c04.run, ("C04.deriv", "C04.anti", "C04.affine", "C04.wire", "C04.acc", "C04.unit"), "C03dt",
+    reuse(ctx, c04.run, ("C04.deriv", "C04.anti", "C04.affine", "C04.wire", "C04.acc", "C04.unit", "C04.alloc"), "C03dt",
           "data-transform rule shared with C04: the proposal density includes these Jacobians")
 
     # ---------------- Flow.__init__ default transform
@@ -327,6 +360,9 @@ MUTANTS += [
 ]
 MUTANTS += [
     M("saving a flow pops the data transform out of its recorded constructor arguments", "src/aspire/flows/torch/flows.py", "config = self.config_dict().copy()\n        data_transform = config.pop(\"data_transform\", None)", "config = self.config_dict()\n        data_transform = config.pop(\"data_transform\", None)\n        config = dict(config)", "C03rt"),
+]
+MUTANTS += [
+    M("flow matching defaults to the Hutchinson trace estimate above two dimensions", "src/aspire/flows/torch/flows.py", "kwargs.setdefault(\"hidden_features\", 4 * [100])", "kwargs.setdefault(\"hidden_features\", 4 * [100])\n        kwargs.setdefault(\"exact\", dims <= 2)", "C03.sign"),
 ]
 NEUTRALS = [
     M("zuko log_prob operand order", _TF, "self._flow().log_prob(x_prime) + log_abs_det_jacobian", "log_abs_det_jacobian + self._flow().log_prob(x_prime)"),
